@@ -32,7 +32,7 @@ CLAIMED.update({
 CLAIMED.update({
  "C12": ("DESIGN.md 5/C12",
    "Router registry: one arbitrary Add/Remove/Has/Get on an arbitrary registry (symbolic names, opaque clients) against a map model incl. change callbacks; Get with fallback/factory fakes answering arbitrarily; two concurrent first Gets under every interleaving; replaceEmptyNameField over the protobuf reflection model.",
-   "Trusted: symgo (+ concurrency runtime, protobuf model), z3. Outside the claim so far: the generated per-trait forwarders (C12-C) and the generator-freshness clause.",
+   "Plus C12-C: on every run symgo enumerates every generated router type of pkg/trait/* from the current tree's go/types, GENERATES a fake client and a harness per router (65 routers, ~150 methods) and executes every unary and server-streaming forwarder with a symbolic request name: exactly one call on the named client, same method, same request object, response/error/header/messages/trailer pass through, caller errors cancel the forwarded request, unknown names give NotFound and touch no client, and an RPC of the service descriptor without a forwarder (only promoted from Unimplemented...Server) is a violation. Trusted: symgo (+ concurrency runtime, protobuf model), z3; native validation of the generated harnesses is sampled (6 packages per run, rotated by seed, plus every package with a counterexample). Outside: the *_wrap.pb.go wrappers and a byte-for-byte generator-freshness diff (its observable consequence - unrouted or misrouted RPCs - is what is checked).",
    "SSA symbolic execution + SMT, symbolic scheduler, native replay"),
  "C20": ("DESIGN.md 5/C20",
    "Kernels of the trait models executed symbolically: parent traitUnion/traitRemove on sorted symbolic name lists (set algebra), vending updateStock (units, floor at zero, nil-safety, error reporting), unitpb.Convert (identity / category errors), fan speed DeriveValues (table consistency under precedence, no panic for 0..3 presets), mode relativeAdjustment (modular step over full int32), NewModelModes configuration.",
